@@ -490,7 +490,10 @@ CLAIMS = {
          "compiled whole and separately in every topological order (sampled in the quick tier) with .interface/.core written to and re-read from JSON files; "
          "acceptance must agree (same stage when rejected), Go.Sem of both Go ASTs and Sem of both Cores must give the same outcome, Go.Check must agree, and "
          "check_package / build_package must serialise the same interface bytes; the exports of every built package read back from the .interface JSON text must "
-         "be what was written (Debug rendering of exports / to_genv() / hir_interface, compact JSON, recomputed hash).",
+         "be what was written (Debug rendering of exports / to_genv() / hir_interface, compact JSON, recomputed hash). The same oracle also judges a deterministic catalogue of type-directed lookups "
+         "(field, inherent method, Trait::m(v), bound, dyn coercion, match; through call results, lets and closure parameters) on a value whose type lives in a package "
+         "the user package imports / imports only in a sibling file / reaches only through an import of an import, with the impl beside the type or beside the trait, "
+         "user = Main or a library (258 projects), and a sample of the C16 package worlds (60 quick / 600 thorough).",
     design_ref="§5 C14, 'C14 — as built', 'C14 closures and link environment — as built (round 10)'",
     note="The JSON codec of the exports' entries themselves (serde derive on EnumDef, Ty, FnScheme, ...) is validated by the round-trip oracle, not modelled; keys and "
          "values of the link environment are compared by their Debug rendering (values by a 64-bit hash of it). The stages after Core (mono, lift, anf, go) are "
